@@ -1,0 +1,9 @@
+//! Hooks for check C32 (space descriptors): re-exports only, no behaviour of their own.
+
+pub use crate::util::heap::space_descriptor::SpaceDescriptor;
+
+/// `VMLayout::set_custom_vm_layout` (crate-private; the public route is
+/// `MMTKBuilder::set_vm_layout`, which needs a builder).
+pub fn set_custom_vm_layout(layout: crate::util::heap::vm_layout::VMLayout) {
+    crate::util::heap::vm_layout::VMLayout::set_custom_vm_layout(layout)
+}
